@@ -460,8 +460,20 @@ func samplesOr(s []any, fail any) []any {
 
 func tail(s string, n int) string {
 	lines := strings.Split(s, "\n")
-	if len(lines) > n {
-		lines = lines[len(lines)-n:]
+	if len(lines) > n+40 {
+		// the cause of a crash is at the head of the output (panic / fatal error line), the
+		// goroutine dump that follows can be very long
+		head := lines[:40]
+		for i, l := range lines {
+			if strings.HasPrefix(l, "panic:") || strings.HasPrefix(l, "fatal error:") || strings.HasPrefix(l, "WATCHDOG") || strings.Contains(l, "[running]") {
+				if i > 40 {
+					head = append(append([]string{}, head...), "  [...]")
+					head = append(head, lines[i:min(i+25, len(lines))]...)
+				}
+				break
+			}
+		}
+		return strings.Join(head, "\n") + "\n  [...]\n" + strings.Join(lines[len(lines)-n:], "\n")
 	}
 	return strings.Join(lines, "\n")
 }
